@@ -1,6 +1,7 @@
 package checks
 
 import (
+	"strings"
 	"testing"
 
 	"verif/mc/h"
@@ -9,6 +10,16 @@ import (
 
 func TestC01(t *testing.T) {
 	run := h.NewRun("C01", "model_checking")
+	if rp := replayFile(); rp != nil && strings.Contains(string(rp.raw["replay"]), "lattice_case") {
+		var x struct {
+			Case c01Case `json:"lattice_case"`
+		}
+		rp.decode(&x)
+		c01Eval(t, run, x.Case)
+		exit(run.Finish("replay"))
+	}
+	c01Lattice(t, run)
+	requireAntecedents(run, "C01a/create", "C01b/duplicates", "C01c/ineligible")
 	mons := []func(*w.MonCtx){w.MonC01}
 	churn := func() *w.Alpha {
 		return &w.Alpha{PodDev: []string{"fail", "unknown"}, AddNodes: []string{"n9"}, DelNodes: true, Taints: []string{"NoSchedule", "NoExecute"}}
@@ -32,5 +43,6 @@ func TestC01(t *testing.T) {
 		}
 	}
 	worldFinish(run)
-	exit(run.Finish("BFS over all interleavings of reconciles / kubelet / node churn / pod failures in scenarios S1,S2,S3 with monitors C01a-d on every transition; non-trivial = scenarios explored"))
+	run.Cov["evaluations"] = run.Counter("transitions") + run.Counter("lattice_syncs")
+	exit(run.Finish("lattice: one real replica-set sync on every layout of {1 node: 3 labels x 6 taints x up to 2 pods over (own/other replica set x pending-unbound/running/failed/unknown/terminating x creation order)} x 10 template selector/affinity variants x toleration x 5 roles x both assignment modes, plus 2-node layouts over a reduced alphabet; BFS over all interleavings of reconciles / kubelet / node churn / pod failures in scenarios S1,S2,S3 with monitors C01a-d on every transition; non-trivial = scenarios explored"))
 }
